@@ -52,6 +52,9 @@ fn current_sched() -> Option<Arc<Sched>> {
     SCHED.lock().ok().and_then(|g| g.clone())
 }
 
+/// calls of the executions go through `Vfs::Memfs(instance.clone())` instead of the instance itself
+pub static VIA_WRAPPER: std::sync::atomic::AtomicBool = std::sync::atomic::AtomicBool::new(false);
+
 pub fn install_hook() {
     set_guard_hook(Some(Arc::new(|ev: GuardEvent| {
         let tid = TID.with(|t| t.get());
@@ -174,7 +177,12 @@ pub fn run_controlled(mem: Arc<Memfs>, program: &[Vec<Op>], prefix: &[usize]) ->
                     s.yield_now(tid); // the call becomes runnable here: its start stamp is taken when it is picked
                     FIRST_ACQ.with(|f| f.set(true));
                     let start = s.tick();
-                    let res = exec(&*mem, op);
+                    let res = if VIA_WRAPPER.load(std::sync::atomic::Ordering::Relaxed) {
+                        // the same shared instance behind the enum wrapper
+                        exec(&Vfs::Memfs(mem.verif_share()), op)
+                    } else {
+                        exec(&*mem, op)
+                    };
                     // a call that unwound out of a critical section leaves the counters dirty
                     HOLDING.with(|h| h.set(0));
                     HELD_WRITE.with(|h| h.set(false));
@@ -249,7 +257,12 @@ pub fn run_free(mem: Arc<Memfs>, program: &[Vec<Op>], clock: &AtomicU64) -> Vec<
                 let mut mine = vec![];
                 for (i, op) in ops.iter().enumerate() {
                     let start = clock.fetch_add(1, Ordering::SeqCst);
-                    let res = exec(&*mem, op);
+                    let res = if VIA_WRAPPER.load(std::sync::atomic::Ordering::Relaxed) {
+                        // the same shared instance behind the enum wrapper
+                        exec(&Vfs::Memfs(mem.verif_share()), op)
+                    } else {
+                        exec(&*mem, op)
+                    };
                     let end = clock.fetch_add(1, Ordering::SeqCst);
                     mine.push(CallRec { thread: tid, index: i, op: op.clone(), start, end, res });
                 }
